@@ -31,6 +31,10 @@ static bool gen_c11(uint64_t seed, const std::string &tier, uint64_t i, Plan &p)
       a += (wild ? "+" : "=") + mixc(r, loc) + ":" + user + ":" + uid + ":" + std::to_string(100 + r.below(5)) + ":/home/" + user + ":" + (r.chance(0.5) ? "-" : "") + ":" + (wild ? r.pick(std::vector<std::string>{"", "pre-", "x"}) : r.pick(std::vector<std::string>{"", "ext"})) + ":\n";
       (wild ? wild_locs : simple_locs).push_back(loc);
     }
+    // two simple entries whose database keys ("!name" + NUL) have the same length and the same 32-bit cdb hash: both must be found
+    if (r.chance(0.2)) { static const std::vector<std::pair<std::string, std::string>> coll = {{"inhzhjwy", "bpulfcqf"}, {"atdmnzi", "mmymyam"}, {"ilarhwk", "rvhjbec"}, {"qymymfx", "odfdkdi"}, {"bhaondj", "zpvmbxo"}};
+      auto pr = r.pick(coll); int u0 = 520 + (int)r.below(10);
+      for (auto *nm : {&pr.first, &pr.second}) if (seen.insert("=" + *nm).second) { a += "=" + *nm + ":" + (nm == &pr.first ? "joe" : "bill") + ":" + std::to_string(u0++) + ":100:/home/" + (nm == &pr.first ? "joe" : "bill") + ":::\n"; simple_locs.push_back(*nm); } }
     if (r.chance(0.3)) a += "+:alias:7790:2108:/var/qmail/alias:-::\n";
     int bad = (int)r.below(14);
     if (bad == 0) a += "=broken\n"; else if (bad == 1) a += "=a:b:c\n"; else if (bad == 2) a += ":x:1:1:/:::\n";
@@ -41,6 +45,7 @@ static bool gen_c11(uint64_t seed, const std::string &tier, uint64_t i, Plan &p)
   std::string s; int n = (int)r.range(1, 4); std::string lab; std::set<std::string> used_locals;
   for (int q = 0; q < n; q++) {
     std::string base = r.chance(0.5) ? r.pick(locs) : std::string(us[r.below(9)].n);
+    if (!simple_locs.empty() && r.chance(0.4)) base = simple_locs[r.below(simple_locs.size())];   // names the table really has (among them the colliding pairs)
     int nm = (int)r.below(8);
     std::string local = nm == 0 ? base : nm == 1 ? base + "-ext" : nm == 2 ? base + "x" : nm == 3 ? mixc(r, base) + "-Ext-More" : nm == 4 ? base.substr(0, base.size() / 2) : nm == 5 ? base + "-" : nm == 6 ? "-" + base : base;
     if (local.empty()) local = "e";
